@@ -23,6 +23,7 @@ Proof.
              (match to_one_based ai ce with Some v => v | None => C + 1 end).
   intros a b c d.
   destruct ((c =? 0) || (a =? 0)) eqn:Eg; [reflexivity|].
+  destruct ((d =? 0) || (b =? 0)) eqn:Eg'; [reflexivity|].
   (* one axis bound at a time: every error path ends the proof, the single Ok path continues *)
   unfold rc_start at 1. destruct (R <? a) eqn:Ea; py_simpl; [reflexivity|].
   destruct (a <? 0) eqn:Ea0; py_simpl;
